@@ -184,8 +184,8 @@ theorem aset_set {ν : Type} (m : AList String ν) (k : String) (v' v : ν) :
 end Aave
 
 /-- **`change_collateral` of the state machine simulates the risk model's**: same acceptance, the new positions project
-    to the risk model's new portfolio; a refusal (unknown supply: `KeyError`; health factor below 1 after switching the
-    flag off: `AssertionError`) leaves positions, wallet and log as they were (the flag is written back). -/
+    to the risk model's new portfolio; a refusal (unknown supply: `KeyError`; token not admitted as collateral by the risk table when switching
+    the flag on, health factor below 1 after switching the flag off: `AssertionError`) leaves positions, wallet and log as they were (the flag is written back). -/
 theorem C11_sm_change_collateral_refines {s : St} (hs : Good cx env s) (hopen : env.isOpen = true) (tok : String)
     (flag : Bool) :
     match AaveRisk.changeCollateral cx.toNumCtx (proj env s) tok flag with
@@ -211,9 +211,14 @@ theorem C11_sm_change_collateral_refines {s : St} (hs : Good cx env s) (hopen : 
     · have hbeq : (info.coll == flag) = false := by simp [hc]
       rw [if_neg hc]
       simp only [hbeq, Bool.false_eq_true, if_false]
+      -- the risk row of a held token exists (coherence), so `rowOf` shows the table's `usageAsCollateralEnabled`
+      obtain ⟨⟨st, h1⟩, ⟨pr, h2⟩, ⟨r, h3⟩⟩ := hs.1.cv tok (aget_mem_keys hg)
+      have hcan : (projSup env (tok, info)).row.canColl = r.canColl := by
+        show (rowOf env tok).canColl = _
+        rw [rowOf_eq h1 h2 h3]
+      rw [hcan]
       have hcf : ∀ (i : SupplyInfo) (f : Unit → M Unit), (commitFlag tok i >>= f) s = f () (commitFlag tok i s).2 :=
         fun _ _ => rfl
-      rw [hcf]
       have hpin := good_commitFlag (⟨hs, rfl, rfl⟩ : Pin cx env s.supplies s.borrows s) hg flag
       have hproj : projPos env (AList.set s.supplies tok { info with coll := flag }) s.borrows =
           { proj env s with supplies := AaveRisk.setSupplyColl (s.supplies.map (projSup env)) tok flag } := by
@@ -221,15 +226,33 @@ theorem C11_sm_change_collateral_refines {s : St} (hs : Good cx env s) (hopen : 
         rw [set_proj_supply_coll _ _ _ _ hg]
       cases flag with
       | true =>
-        simp only [Bool.not_true, Bool.false_eq_true, if_false, false_and]
-        exact ⟨_, rfl, hproj, rfl, rfl, rfl⟩
+        have hchk : checkCanCollateral env tok true s = (if r.canColl then (.ok (), s) else (.error .cannotCollateral, s)) := by
+          unfold checkCanCollateral
+          simp only [if_true]
+          rw [run_bind, run_ofRes, h3]
+          simp only [run_require]
+        cases hrc : r.canColl with
+        | false =>
+          rw [hrc] at hchk
+          simp only [Bool.false_eq_true, if_false] at hchk
+          rw [run_bind_err hchk]
+          simp only [and_self, if_true]
+          exact ⟨s, rfl, rfl⟩
+        | true =>
+          rw [hrc] at hchk
+          simp only [if_true] at hchk
+          rw [run_bind_ok hchk, hcf]
+          simp only [Bool.not_true, Bool.false_eq_true, if_false, false_and, and_false, true_and]
+          exact ⟨_, rfl, hproj, rfl, rfl, rfl⟩
       | false =>
-        simp only [Bool.not_false, if_true, true_and]
+        have hchk : checkCanCollateral env tok false s = (.ok (), s) := rfl
+        rw [run_bind_ok hchk, hcf]
+        simp only [Bool.not_false, if_true, true_and, Bool.false_eq_true, false_and, if_false]
         obtain ⟨s2, e2, hat2⟩ := run_healthFactor (⟨hpin.1, rfl⟩ : At cx env _ _)
         have hp2 : projPos env (commitFlag tok { info with coll := false } s).2.frame.supplies
             (commitFlag tok { info with coll := false } s).2.frame.borrows = _ := hproj
         rw [hp2] at e2
-        rw [run_bind_ok e2, toX_ltR, consts_agree.1]
+        rw [run_bind_ok (run_onError_ok e2), toX_ltR, consts_agree.1]
         cases hlt : (AaveRisk.healthFactor cx.toNumCtx { proj env s with
             supplies := AaveRisk.setSupplyColl (s.supplies.map (projSup env)) tok false }).ltB Gen.arHfLiqThreshold
         · simp only [Bool.false_eq_true, if_false]
